@@ -782,7 +782,8 @@ class Context:
         """
         requested_plugins = {}
         cached_plugins = self._fixed_plugin_cache[self._context_hash()]  # type: ignore
-        for target, plugin in cached_plugins.items():
+        # (snapshot: other threads may add plugins to the cache meanwhile)
+        for target, plugin in list(cached_plugins.items()):
             if target in requested_plugins:
                 # If e.g. target is already seen because the plugin is
                 # multi output
